@@ -192,6 +192,13 @@ pub fn tokenize_expression(input: &str) -> Result<Vec<Token>, CompilerError> {
                     let value = token_text.parse::<f32>().map_err(|error| {
                         CompilerError::invalid_source(format!("invalid float literal: {error}"))
                     })?;
+                    // Ink floats are single precision: a literal beyond that range
+                    // would become an infinity, which a story cannot hold.
+                    if !value.is_finite() {
+                        return Err(CompilerError::invalid_source(format!(
+                            "float literal out of range: '{token_text}'"
+                        )));
+                    }
                     tokens.push(Token::Float(value));
                 } else {
                     let value = token_text.parse::<i32>().map_err(|error| {
